@@ -26,6 +26,7 @@ import termios
 import traceback
 
 CTL = None
+REPO = "/repo"
 
 
 def fionread(fd):
@@ -194,9 +195,11 @@ class Ctl:
 class Loop(asyncio.SelectorEventLoop):
     def _run_once(self):
         ctl = CTL
-        if ctl is not None and ctl.active and not ctl.done and not self._ready and not self._scheduled:
-            if not self._selector.select(0):
-                ctl.on_idle()
+        # quiescent: nothing ready, no timer, no readable descriptor.  Release environment events until
+        # something can run again (a token taken by the "child make" wakes nobody).
+        while ctl is not None and ctl.active and not ctl.done and not self._ready and not self._scheduled \
+                and not self._selector.select(0):
+            ctl.on_idle()
         super()._run_once()
 
 
@@ -269,6 +272,12 @@ def install():
     import asyncio.events as aev
 
     asyncio.set_event_loop_policy(Policy())
+
+    # Bob primes a forkserver process pool for audit/archive work on every invocation.  Neither is used in
+    # the driven configuration (--no-audit, no archive); a thread pool keeps the per-case cost small.
+    import bob.utils
+    import concurrent.futures
+    bob.utils.getProcessPoolExecutor = lambda: concurrent.futures.ThreadPoolExecutor(max_workers=1)
 
     orig_run = aev.Handle._run
 
@@ -420,10 +429,11 @@ def run_case(case):
     saved = os.dup(1), os.dup(2)
     devnull = os.open(os.devnull, os.O_WRONLY)
     os.dup2(devnull, 1)
-    os.dup2(devnull, 2)
+    if not os.environ.get("C06_DEBUG"):
+        os.dup2(devnull, 2)
     try:
         try:
-            doDevelop(case["argv"], "/repo")
+            doDevelop(case["argv"], REPO)
             out["result"] = "ok"
         except Deadlock:
             out["result"] = "deadlock"
@@ -439,6 +449,14 @@ def run_case(case):
         os.dup2(saved[1], 2)
         for fd in saved + (devnull,):
             os.close(fd)
+    jobs = 1
+    if mf:
+        jobs = int(mf["jobs"])
+    if "-j" in case["argv"]:
+        jobs = int(case["argv"][case["argv"].index("-j") + 1])
+    out["case"] = {"argv": case["argv"], "jobs": jobs, "pipe0": (int(mf["tokens"]) if mf and "-j" not in case["argv"] else jobs),
+                   "choices": case.get("choices"), "fail": case.get("fail"), "env_takes": case.get("env_takes", 0),
+                   "makeflags": mf}
     out["graph"] = ctl.graph
     out["targets"] = ctl.targets
     out["co0"] = getattr(ctl, "co0", None)
@@ -464,8 +482,10 @@ def run_case(case):
 
 
 def main():
+    global REPO
     req = json.load(sys.stdin)
-    sys.path.insert(0, os.path.join(req.get("repo", "/repo"), "pym"))
+    REPO = req.get("repo", "/repo")
+    sys.path.insert(0, os.path.join(REPO, "pym"))
     install()
     done = 0
     with open(req["out"], "a") as f:
